@@ -48,38 +48,8 @@ theorem C13_dataarray_roundtrip (name : String) (a : WArr) (given : Option Nat) 
     (hg : ∀ k, given = some k → k = prod a.tail)
     (hty : ∀ v, dtypeToVtk a.dt = some v → vtkToDtype v = some a.dt)
     (he : makeDataArray name a given = some e) :
-    readItems e = some (a.dt, a.items) ∧ e.name = name ∧ e.ncomps = prod a.tail := by
-  unfold WArr.wf at hw
-  simp only [Bool.and_eq_true, beq_iff_eq, List.all_eq_true, decide_eq_true_eq, ne_eq] at hw
-  obtain ⟨⟨hsz, hlen⟩, hit⟩ := hw
-  unfold makeDataArray at he
-  -- the component count
-  have hnc : ∀ nc, numComps a given = some nc → nc = prod a.tail := by
-    intro nc h
-    unfold numComps at h
-    cases given with
-    | some k => simp only [Option.some.injEq] at h; subst h; exact hg k rfl
-    | none =>
-      by_cases h0 : a.rows = 0
-      · simp [h0] at h
-      · simp only [h0, if_false, Option.some.injEq] at h; exact h.symm
-  cases hc : numComps a given with
-  | none => simp [hc] at he
-  | some nc =>
-    have hnc2 := hnc nc hc
-    cases hv : dtypeToVtk a.dt with
-    | none => simp [hc, hv] at he
-    | some v =>
-      simp only [hc, hv, Option.some.injEq] at he
-      subst he
-      refine ⟨?_, rfl, hnc2⟩
-      unfold readItems
-      simp only [hty v hv]
-      have hbytes : a.rows * nc * dtypeSize a.dt = (itemsToBytes (dtypeSize a.dt) a.items).length := by
-        rw [itemsToBytes_length, hlen, hnc2]
-      rw [hbytes, noCompRead_encodeText _ (itemsToBytes_lt _ _) (by rw [itemsToBytes_length]; exact hn)]
-      simp only
-      rw [frombuffer_itemsToBytes hsz a.items hit]
+    readItems e = some (a.dt, a.items) ∧ e.name = name ∧ e.ncomps = prod a.tail :=
+  readItems_makeDataArray name a given e hw hn hg hty he
 
 /-- **C13 (numeric types preserved).** Every numpy dtype of the writer's table (regenerated from
     `_helpers._VTK_TYPE_TO_DTYPE`) maps to a VTK type name that the reader maps back to the same dtype,
@@ -91,8 +61,8 @@ theorem C13_types_preserved :
 /-- the ten numeric dtypes are all registered -/
 theorem C13_all_dtypes_registered :
     ∀ d ∈ ["int8", "int16", "int32", "int64", "uint8", "uint16", "uint32", "uint64", "float32", "float64"],
-      ∃ v, dtypeToVtk d = some v ∧ vtkToDtype v = some d := by
-  decide
+      ∃ v, dtypeToVtk d = some v ∧ vtkToDtype v = some d :=
+  all_dtypes_registered
 
 /-- **C13 (every array of the written file, partial composition).**  Whenever the writer produces a file for
     field data `F` (any number of point fields of any registered dtypes and shapes, any points, at least one cell),
@@ -125,17 +95,10 @@ theorem C13_vtu_arrays_roundtrip_partial (F : WFields) (file : VtuFile) (hw : wr
     | nil => exact absurd hc hcs
     | cons _ _ => rfl
   rw [hcsb] at h4 h5 h7
-  -- one array
   have one : ∀ (name : String) (a : WArr) (given : Option Nat) (e : DataArr), ArrOk a →
       (∀ k, given = some k → k = prod a.tail) → makeDataArray name a given = some e →
-      readItems e = some (a.dt, a.items) ∧ e.name = name ∧ e.ncomps = prod a.tail := by
-    intro name a given e hok hg he
-    refine C13_dataarray_roundtrip name a given e hok.wf hok.small hg ?_ he
-    intro v hv
-    obtain ⟨v', hv1, hv2⟩ := C13_all_dtypes_registered a.dt hok.reg
-    rw [hv1] at hv
-    cases hv
-    exact hv2
+      readItems e = some (a.dt, a.items) ∧ e.name = name ∧ e.ncomps = prod a.tail :=
+    fun name a given e hok hg he => hok.read name given e hg he
   refine ⟨?_, hn, ?_, ?_, ?_, tys, h6, ?_⟩
   · apply mapM'_map_eq _ _ _ F.pf file.pointData h1
     intro f hf e he
